@@ -22,6 +22,25 @@ CLAIMED = {
    note="Trusted: Coq kernel, translator, correspondence harness. random.randint for an unconfigured server id is only range-checked; "
         "the id seen in the handshake / CONNECTION_ID() / KILL is checked at the wire level by the harness (test, not theorem).",
    technique="Coq proof (invariant by induction over add/remove histories, pigeonhole for termination) + translator facts + vm_compute correspondence"),
+ "C06": dict(
+   text="Coq theorems over code points: the one-pass placeholder scanner equals the regex's look-ahead specification for every text; "
+        "a literal built from ANY character sequence lexes (MySQL string-literal lexer as specification) to exactly that sequence and "
+        "ends where the builder ended it; on the template grammar the recognised placeholders are exactly the holes and interpolation "
+        "equals filling the holes in order with everything else byte-identical; binary parameter decoding is the inverse of the "
+        "client-side encoding for every well-formed parameter list. Function shapes regenerated from prepared.py/packets.py; "
+        "byte-exact correspondence with parse_com_stmt_execute and the wire (long data, repeated executions).",
+   design="7/C06",
+   note="Trusted: Coq kernel, translator, harness; text decoding (latin1 in the byte-exact runs) and repr(float) are outside the model; "
+        "lex_literal is my reading of MySQL's lexer, cross-checked against sqlglot's tokenizer on every generated literal.",
+   technique="Coq proof (structural induction over texts/templates/parameter lists) + translator facts + vm_compute correspondence"),
+ "C17": dict(
+   text="Coq theorems over the packet parsers (Model/Parse.v): for every attribute list of well-formed parameters and every SQL byte "
+        "string parse_com_query(encode_com_query attrs sql) = (sql, dict attrs); without the capability every payload is returned "
+        "untouched as SQL; COM_STMT_EXECUTE with m positional parameters and any attributes yields exactly those m values and that "
+        "attribute dict (NULL bitmap proved for every count). Correspondence with the real parsers on generated packets and the wire.",
+   design="7/C17",
+   note="Trusted: Coq kernel, translator, harness; struct IEEE unpacking and text decoding are CPython's (latin1 = identity in the runs).",
+   technique="Coq proof (round-trip by induction over the parameter list, bitmap lemma) + translator facts + vm_compute correspondence"),
 }
 
 PENDING = {}
